@@ -1027,6 +1027,18 @@ def case_helpers(rng, ctx):
     ctx.log(sub, info["kind"], box.tolist(), x.tolist(), amount)
     rep, idx = struc.repeat_box_coord(x, box, amount)
     k = (2 * amount + 1) ** 3
+    # every returned coordinate is a lattice image of the atom its index entry names (the count of images is only observed)
+    idx_a = np.asarray(idx)
+    if idx_a.ndim != 1 or len(idx_a) != rep.shape[-2] or idx_a.dtype.kind not in "iu" or (len(idx_a) and (idx_a.min() < 0 or idx_a.max() >= n)):
+        ctx.fail("repeat_index_names_original", "repeat_box_coord(amount=%d): %d coordinates but index array %r of length %d over %d atoms"
+                 % (amount, rep.shape[-2], idx_a.dtype.str, len(idx_a), n))
+        return
+    _, res_i = G.lattice_residual(np.asarray(rep, np.float64) - x.astype(np.float64)[idx_a], box)
+    if (res_i > G.pbc_tol(box, absmax(rep), E32)).any():
+        ctx.fail("repeat_index_names_original", "repeat_box_coord(amount=%d): a returned coordinate is no lattice image of the atom its index names (residual %.3g)"
+                 % (amount, float(res_i.max())))
+        return
+    ctx.oracle("repeat_index_names_original")
     if rep.shape != (k * n, 3) or not np.array_equal(idx, np.tile(np.arange(n), k)):
         ctx.note("repeat_box_coord_unexpected_shape")
     else:
